@@ -217,7 +217,7 @@ func Interpret(text string) (*Parsed, *Reject) {
 			m := locatorRe.FindStringSubmatch(toks[i])
 			sz, _ := parseNum(m[2])
 			if sz > maxNum {
-				return nil, reject("huge-block", ln, "block size %s", m[2])
+				return nil, reject("number-out-of-range", ln, "block size %s beyond 2^50", m[2])
 			}
 			st.Locs = append(st.Locs, Loc{Tok: toks[i], Hash: m[1], Size: sz, Start: st.Total})
 			st.Total += sz
@@ -242,7 +242,10 @@ func Interpret(text string) (*Parsed, *Reject) {
 			}
 			pos, _ := parseNum(parts[0])
 			sz, _ := parseNum(parts[1])
-			if pos > maxNum || sz > maxNum || pos+sz > st.Total {
+			if pos > maxNum || sz > maxNum {
+				return nil, reject("number-out-of-range", ln, "%q: position/size beyond 2^50", t)
+			}
+			if pos+sz > st.Total {
 				return nil, reject("range-outside-stream", ln, "%q in a %d-byte stream", t, st.Total)
 			}
 			ft := FileTok{PosTok: parts[0], LenTok: parts[1], NameTok: parts[2], Pos: pos, Len: sz}
